@@ -102,13 +102,14 @@ theorem non_interference {σ π μ : Type} (env : Env σ) (mk : Markup π μ) (f
     projTrace (run (nextStep env mk fuel) cfg sched).2 i = (solo (nextStep env mk fuel) x (proj sched i)).2 :=
   non_interference_generic (nextStep env mk fuel) sched cfg i x h
 
-/-- C18.2 regenerated fact: the hand-written packages of the repository hold no writable package-level state — the
-only package-level variables are these read-only tables, and nothing assigns to, indexes into, deletes from or takes
-the address of any of them (`tools/pkgstate`, re-run on every check; a new mutable global breaks this theorem) -/
+/-- C18.2 regenerated fact: the hand-written packages of the repository hold no writable package-level state — nothing
+assigns to, indexes into, deletes from or takes the address of a package-level variable, and every package-level
+variable is a compiled regular expression (safe for concurrent use), a `reflect.Type` (immutable) or a map literal
+(read-only, given that there is no write) (`tools/pkgstate`, re-run on every check; a new mutable global, or a global of a
+kind whose mutability cannot be judged syntactically, breaks this theorem) -/
 theorem no_mutable_package_state :
     Generated.packageWrites = [] ∧
-    Generated.packageVars = ["markup.endOfCharacterMarker", "tree.commandNumberRegexp", "ysgo.argConverterByGoalKind",
-                             "ysgo.typeErrChan", "ysgo.typeError"] := by
+    Generated.packageVarKinds.all (fun p => p.2 == "regexp" || p.2 == "reflect.Type" || p.2 == "map-literal") = true := by
   decide
 
 /-- non-vacuity: two components stepped in an interleaving -/
